@@ -8,7 +8,7 @@
    consecutive cycles), expected events per command, the reference parser, the response string.
    Every theorem quantifies over ALL widths (rq_w_ok: enables/handshake >= 1 bit, data >= 0 bits), ALL digit strings
    (any length), ALL producer schedules / consumer pacings, and holds for every run length n beyond some N. *)
-From V Require Import Base.Bits Gen.Seq Spec.C20 Model.Cmd Proofs.C20.Req Proofs.C20.Resp Proofs.C20.Cmds.
+From V Require Import Base.Bits Gen.Seq Spec.C20 Model.Cmd Proofs.C20.Req Proofs.C20.Resp Proofs.C20.Cmds Proofs.C20.Codec.
 
 (* ---- decoder ---- *)
 (* after the digits ds (fed with any timing) the accumulator holds hexval ds; no output pulse *)
@@ -112,6 +112,27 @@ Theorem resp_idle : forall wvalid wv c i, rs_idle c -> i_start i = 0 ->
   rs_step wvalid wv c i = c /\ xfer (rs_o c) (i_ready i) = [].
 Proof. exact resp_idle_thm. Qed.
 
+(* ---- decoder and encoder COMPOSED (session 5) ----
+   The product machine of Proofs/C20/Codec.v: producer + CMDRequest + CMDResponse clocked by the same edge (codec_step); the
+   decoder's start_resp output wire is the encoder's start input, the encoder's vin / size inputs are the (value, size) entry
+   of the per-cycle table e_tab selected by the decoder's index_out wire (the resp_v / resp_size muxes), the consumer drives
+   ready (e_ready).  Feeding 'O' ds '?' with ANY producer pacing (sched p, as in req_O) makes the encoder transfer EXACTLY
+   '=' ++ the k hex digits of the selected value, MSB first, ++ '!' over the WHOLE run (nothing before, nothing after), under
+   ANY consumer pacing that has 2k+4 ready cycles after cycle N (N depends only on the decoder side, as in req_O); at the
+   end the encoder is idle again, all characters were taken and the decoder is between commands.
+   Explicit hypothesis: entry n = hexval ds mod 2^w(index_out) of the table exists and is (v, k) in the cycles of the run
+   (the encoder samples it once, in the cycle start_resp is high; the table may change elsewhere). *)
+Theorem codec_O : forall W wvalid wv, rq_w_ok W -> 1 <= wvalid -> 7 <= wv -> forall c0 e0 ds p v k,
+  rq_canon c0 -> rs_idle e0 -> Forall (fun d => hexdigit d = true) ds -> map snd p = 79 :: ds ++ [63] -> 0 <= k ->
+  exists N, forall envs,
+    Forall (fun e => nth_error (e_tab e) (Z.to_nat (hexval ds mod 2 ^ ww_index_out W)) = Some (v, k)) envs ->
+    (Z.to_nat (2 * k + 4) <= cready_count (skipn N envs))%nat ->
+    codec_xfers W wvalid wv (c0, p, e0) envs = response v (Z.to_nat k) /\
+    rs_idle (snd (codec_iter W wvalid wv (c0, p, e0) envs)) /\
+    snd (fst (codec_iter W wvalid wv (c0, p, e0) envs)) = [] /\
+    rq_canon (fst (fst (codec_iter W wvalid wv (c0, p, e0) envs))).
+Proof. exact codec_O_thm. Qed.
+
 (* ---- the guards are TIGHT: these two describe limits of the CURRENT behaviour that the theorems' hypotheses exclude
    (a producer that ignores ready; lower-case digits), witnesses by computation on the regenerated definitions; they are
    not findings against C20 (the property assumes the ready/valid port protocol and upper-case hex) ---- *)
@@ -140,6 +161,14 @@ Example resp_run :
   response 421 4 = [61; 48; 49; 65; 53; 33] /\ (Z.to_nat (2 * 4 + 4) <= ready_count env0)%nat.
 Proof. exact resp_instance. Qed.
 
+(* the composed run: "O3?" with producer gaps, output 3 = 0x1A5 on 4 nibbles, consumer ready every third cycle *)
+Example codec_run :
+  rq_w_ok W0 /\ rq_canon rq_reset /\ rs_idle rs_reset /\ map snd pO = 79 :: [51] ++ [63] /\
+  Forall (fun e => nth_error (e_tab e) (Z.to_nat (hexval [51] mod 2 ^ ww_index_out W0)) = Some (421, 4)) envs0 /\
+  codec_xfers W0 1 8 (rq_reset, pO, rs_reset) envs0 = response 421 4 /\ response 421 4 = [61; 48; 49; 65; 53; 33] /\
+  rs_idle (snd (codec_iter W0 1 8 (rq_reset, pO, rs_reset) envs0)).
+Proof. exact codec_instance. Qed.
+
 Print Assumptions req_hex.
 Print Assumptions req_I.
 Print Assumptions req_V.
@@ -152,3 +181,4 @@ Print Assumptions resp_prefix.
 Print Assumptions resp_idle.
 Print Assumptions req_without_handshake_refuted.
 Print Assumptions req_lowercase_refuted.
+Print Assumptions codec_O.
